@@ -624,18 +624,34 @@ func c03CodecOn(c *fw.Ctx, g *model.G, m wkbMode) {
 	// the geometry must not be made of that memory
 	{
 		off := r.Intn(17)
+		if r.Bool() {
+			// offsets that put the ordinates behind a 9- or 13-byte header on an
+			// 8-byte boundary
+			off = []int{7, 15, 3, 11}[r.Intn(4)]
+		}
 		bufc := make([]byte, off+len(want)+r.Intn(9))
 		copy(bufc[off:], want)
 		var b2 geom.T
-		if c.Guard("panic", func() { b2, err = m.unmarshal(bufc[off : off+len(want)]) }) {
+		how := []string{"Unmarshal", "Read(*bytes.Buffer)", "Read(*bytes.Reader)"}[r.Intn(3)]
+		if c.Guard("panic", func() {
+			switch how {
+			case "Unmarshal":
+				b2, err = m.unmarshal(bufc[off : off+len(want)])
+			case "Read(*bytes.Buffer)":
+				b2, err = m.read(bytes.NewBuffer(bufc[off : off+len(want)]))
+			default:
+				b2, err = m.read(bytes.NewReader(bufc[off : off+len(want)]))
+			}
+		}) {
 			return
 		}
 		c.Eval(1)
+		c.Count("decoded_from_a_caller_buffer_by_" + how)
 		for i := range bufc {
 			bufc[i] = 0xEE
 		}
 		c.Count("decoded_from_a_caller_buffer_that_is_reused_afterwards")
-		if err != nil || !expectGeom(c, fmt.Sprintf("%s Unmarshal from offset %d of a buffer overwritten afterwards", m.name, off), b2, exp, model.Opts{}) {
+		if err != nil || !expectGeom(c, fmt.Sprintf("%s %s from offset %d of a buffer overwritten afterwards", m.name, how, off), b2, exp, model.Opts{}) {
 			if err != nil {
 				c.Fail("unmarshal-error", "%s: Unmarshal rejected the standard encoding at offset %d of a longer buffer: %v", m.name, off, err)
 			}
@@ -987,6 +1003,20 @@ func c03SQL(c *fw.Ctx, idx int) {
 	if useE {
 		mk = ewkbWrapper
 	}
+	if r.Chance(1, 6) {
+		// Value() calls that are refused (a layout the format cannot carry, alone
+		// and behind a member that was already written); whatever they return,
+		// the judged calls after them must not see what they left behind
+		func() {
+			defer func() { _ = recover() }()
+			bad := geom.NewPointFlat(geom.Layout(5), []float64{1, 2, 3, 4, 5})
+			_, _ = mk(model.Point, bad).Value()
+			gc := geom.NewGeometryCollection()
+			_ = gc.Push(geom.NewPointFlat(geom.XY, []float64{1, 2}), geom.NewLineStringFlat(geom.Layout(6), []float64{1, 2, 3, 4, 5, 6, 6, 5, 4, 3, 2, 1}))
+			_, _ = mk(model.Collection, gc).Value()
+		}()
+		c.Count("sql_refused_value_calls_first")
+	}
 	// Value
 	w := mk(srcKind, t)
 	var v driver.Value
@@ -1007,6 +1037,60 @@ func c03SQL(c *fw.Ctx, idx int) {
 		return
 	}
 	exp := decodeExpectation(g, m)
+	// the caller changes the wrapped geometry (SetCoords: the same number of
+	// coordinates with other values, or another shape) between two Value() calls,
+	// on a wrapper built around its geometry and on wrappers that were scanned into
+	if srcKind != model.Collection && r.Chance(1, 2) {
+		g2 := gen.Shape(r, srcKind, g.Layout, cl, gen.ShapeOpts{})
+		if r.Bool() {
+			g2 = g.Clone()
+			c03Shift(g2)
+		}
+		g2.SRID = g.SRID
+		want2, _, rerr2 := ref.WriteWKB(g2, m.o)
+		holders := []struct {
+			name string
+			w    sqlWrapper
+		}{{"built around the caller's geometry", mk(srcKind, g.BuildFlat())}, {"scanned into", mk(srcKind, nil)}}
+		if c.Guard("panic", func() { err = holders[1].w.Scan(append([]byte{}, want...)) }) {
+			return
+		}
+		if err != nil {
+			c.Fail("sql-scan-error", "%s %s wrapper rejected the standard encoding: %v", m.name, srcKind, err)
+			return
+		}
+		for _, h := range holders {
+			var v1, v2 driver.Value
+			var e1, e2, es error
+			if c.Guard("panic", func() {
+				v1, e1 = h.w.Value()
+				es = setCoordsOn(wrappedGeom(h.w), g2)
+				v2, e2 = h.w.Value()
+			}) {
+				return
+			}
+			c.Eval(2)
+			if es != nil {
+				continue
+			}
+			c.Count("sql_value_after_the_geometry_was_edited")
+			if b1, _ := v1.([]byte); e1 != nil || !bytes.Equal(b1, want) {
+				c.Fail("sql-value-differs", "%s %s wrapper %s: Value() gave err=%v and bytes differing from the standard encoding at %d", m.name, srcKind, h.name, e1, firstDiff(b1, want))
+				return
+			}
+			if rerr2 != nil {
+				if e2 == nil {
+					c.Fail("encoded-unencodable", "%s %s wrapper %s: after SetCoords(%s) Value() succeeded although the geometry is not encodable (%v)", m.name, srcKind, h.name, g2, rerr2)
+					return
+				}
+				continue
+			}
+			if b2, _ := v2.([]byte); e2 != nil || !bytes.Equal(b2, want2) {
+				c.Fail("sql-value-stale", "%s %s wrapper %s: after SetCoords(%s) on the geometry it holds, Value() gave err=%v and bytes differing from the encoding of the edited geometry at %d (they %s the encoding from before the edit)", m.name, srcKind, h.name, g2, e2, firstDiff(b2, want2), map[bool]string{true: "are", false: "are not"}[bytes.Equal(b2, want)])
+				return
+			}
+		}
+	}
 	// Scan into every wrapper type
 	for _, dk := range sqlKinds {
 		dst := mk(dk, nil)
@@ -1141,6 +1225,33 @@ func c03SQL(c *fw.Ctx, idx int) {
 			return
 		}
 		c.Count("sql_generic_wrapper")
+		// wkb.Geom scanned into, its geometry edited by the caller, asked for its value
+		if srcKind != model.Collection {
+			g2 := g.Clone()
+			c03Shift(g2)
+			want2, _, rerr2 := ref.WriteWKB(g2, m.o)
+			gw2 := &wkb.Geom{}
+			var v3 driver.Value
+			var es error
+			if c.Guard("panic", func() {
+				err = gw2.Scan(append([]byte{}, want...))
+				if err == nil {
+					_, _ = gw2.Value()
+					es = setCoordsOn(gw2.T, g2)
+					v3, err = gw2.Value()
+				}
+			}) {
+				return
+			}
+			c.Eval(3)
+			if es == nil && rerr2 == nil {
+				c.Count("sql_value_after_the_geometry_was_edited")
+				if b3, _ := v3.([]byte); err != nil || !bytes.Equal(b3, want2) {
+					c.Fail("sql-value-stale", "wkb.Geom scanned into, then SetCoords(%s) on its geometry: Value() gave err=%v and bytes differing from the encoding of the edited geometry at %d", g2, err, firstDiff(b3, want2))
+					return
+				}
+			}
+		}
 	} else {
 		// an SQL NULL: the ewkb wrappers take it as "no geometry"
 		dn := mk(srcKind, t)
@@ -1171,6 +1282,36 @@ func c03SQL(c *fw.Ctx, idx int) {
 				return
 			}
 			c.Count("sql_null_handled")
+		}
+	}
+}
+
+// c03Shift replaces every ordinate x of g by another finite value in place of
+// the same shape (same number of coordinates everywhere).
+func c03Shift(g *model.G) {
+	f := func(co []float64) {
+		for i, x := range co {
+			y := x*0.5 + 3
+			if y != y || y == x {
+				y = float64(i) + 0.5
+			}
+			co[i] = y
+		}
+	}
+	f(g.C0)
+	for _, a := range g.C1 {
+		f(a)
+	}
+	for _, a := range g.C2 {
+		for _, b := range a {
+			f(b)
+		}
+	}
+	for _, a := range g.C3 {
+		for _, b := range a {
+			for _, d := range b {
+				f(d)
+			}
 		}
 	}
 }
